@@ -604,17 +604,12 @@ class _SetOperation(Selectable, Term):  # type:ignore[misc]
         return self.minus(other)
 
     def __str__(self) -> str:
-        return self.get_sql(DEFAULT_SQL_CONTEXT)
+        # Default to the base query's dialect and quote_char
+        return self.get_sql(self.base_query.QUERY_CLS.SQL_CONTEXT)
 
     def get_sql(self, ctx: SqlContext) -> str:
         set_operation_template = " {type} {query_string}"
 
-        # Default to the base query's dialect and quote_char
-        ctx = ctx.copy(
-            dialect=self.base_query.QUERY_CLS.SQL_CONTEXT.dialect,
-            quote_char=self.base_query.QUERY_CLS.SQL_CONTEXT.quote_char,
-            parameterizer=ctx.parameterizer,
-        )
         set_ctx = ctx.copy(subquery=self.base_query.wrap_set_operation_queries)
         base_querystring = self.base_query.get_sql(set_ctx)
 
